@@ -163,7 +163,7 @@ CHECKS = {
             "one day everywhere (retention 0 = expired at once is not explored)",
             "event ids are projected to the number of the LogEvent call that produced them (the logger's own SYSTEM_START / SYSTEM_STOP events get the number of the "
             "Start / Stop call); an id the harness never saw is number 0. Slots of the storage systems carry the id ev-<slot>; an id is stored only while it is not "
-            "stored (storing one id twice is outside the contract)",
+            "stored, except by the step `restore` of the system store-dup (depth-bounded table: every restore grows the raw indexes)",
             "exporters are recording stubs (audit.Exporter) inside the bubble; exporter 1 can be switched to failing (it still records what it was handed); exporters "
             "never block; LogEvent after Stop and Stop without Start are not in the alphabet (the first panics on the closed channel, the second loses what waits "
             "in eventChan - neither is documented either way)",
